@@ -165,6 +165,8 @@ static void run_case(int k, const std::string & line)
       }
       else if (kind == 'S') {sgw.SetRef(new SLIPFramedDataMessageIOGateway); rgw.SetRef(new SLIPFramedDataMessageIOGateway);}
       else {fprintf(stderr, "bad head [%s]\n", line.c_str()); exit(2);}
+      // gateways whose wire format is not (yet) modelled in Coq run for the end-to-end oracle only
+      const bool oracle_only = (kind == 'P')||((kind == 'F')&&(atoi(head.size()>1 ? head[1].c_str() : "0") != 0));
       sgw()->SetDataIO(wref); rgw()->SetDataIO(rref);
       QueueGatewayMessageReceiver recv;
 
@@ -313,6 +315,7 @@ static void run_case(int k, const std::string & line)
          }
       }
       sgw.Reset(); rgw.Reset();
+      if (oracle_only) {o.str(""); o << "oracle-only";}
    }
    printf("%d %s\n", k, o.str().c_str());
    if (!orc.str().empty()) fputs(orc.str().c_str(), stdout);
